@@ -1,5 +1,7 @@
 package gojq
 
+import "sync"
+
 // C14 — string positions are code points; regex builtins agree with match.
 
 func c14RunesOf(s string) []string {
@@ -200,4 +202,105 @@ func H_C14_laws() {
 	}
 	vassert(out[0] == true, "the law holds")
 	vreach("holds")
+}
+
+// ---- contract mode: the match list is arbitrary within regexp's documented contract ----
+
+var c14Contract bool
+var c14Matches [][]int
+
+// hRegexpFindAll: consulted by gosym's model of (*regexp.Regexp).FindAllStringSubmatchIndex.
+func hRegexpFindAll(s string, n int) ([][]int, bool) {
+	if !c14Contract {
+		return nil, false
+	}
+	if n >= 0 && len(c14Matches) > n {
+		return c14Matches[:n], true
+	}
+	return c14Matches, true
+}
+
+// H_C14_contract: funcMatch's code-point arithmetic for EVERY match list the regexp engine
+// may return on a subject of symbolic bytes (valid or not): whole match and one capture
+// group (participating or not) per match, one or two matches, indices at the positions
+// where the engine can stop (rune starts; every invalid byte is one position wide).
+func H_C14_contract() {
+	if vnative() {
+		return // the contract model exists only in the symbolic run
+	}
+	s := nondetString(nondetChoice(vparam("n", 3) + 1))
+	var stops []int
+	for i := 0; i < len(s); {
+		stops = append(stops, i)
+		n := refRuneLen(s, i)
+		if n == 0 {
+			n = 1
+		}
+		i += n
+	}
+	stops = append(stops, len(s))
+	mk := func(from int) (m []int, endIdx int) {
+		a := from + nondetChoice(len(stops)-from)
+		b := a + nondetChoice(len(stops)-a)
+		m = []int{stops[a], stops[b], -1, -1}
+		if nondetBool() {
+			c := a + nondetChoice(b-a+1)
+			d := c + nondetChoice(b-c+1)
+			m[2], m[3] = stops[c], stops[d]
+		}
+		return m, b
+	}
+	m0, e0 := mk(0)
+	c14Matches = [][]int{m0}
+	global := nondetBool()
+	if global && e0 < len(stops)-1 && nondetBool() {
+		from := e0
+		if m0[0] == m0[1] {
+			from = e0 + 1 // an empty match is not followed by a match at the same position
+		}
+		if from < len(stops) {
+			m1, _ := mk(from)
+			c14Matches = append(c14Matches, m1)
+		}
+	}
+	c14Contract = true
+	var cache sync.Map
+	var flags any
+	if global {
+		flags = "g"
+	}
+	r := funcMatch(s, "(?P<g>a)", flags, false, &cache)
+	c14Contract = false
+	res, ok := r.([]any)
+	vassert(ok && len(res) == len(c14Matches), "match yields one object per match of the engine")
+	if !ok || len(res) != len(c14Matches) {
+		return
+	}
+	for i, m := range c14Matches {
+		o, ok := res[i].(map[string]any)
+		vassert(ok, "a match is an object")
+		if !ok {
+			return
+		}
+		vassert(o["offset"] == refRuneCount(s[:m[0]]), "offset is the number of code points before the match")
+		vassert(o["length"] == refRuneCount(s[m[0]:m[1]]), "length is the number of code points of the match")
+		vassert(o["string"] == s[m[0]:m[1]], "string is the matched text")
+		cs, ok := o["captures"].([]any)
+		vassert(ok && len(cs) == 1, "one capture per group")
+		if !ok || len(cs) != 1 {
+			return
+		}
+		c := cs[0].(map[string]any)
+		vassert(c["name"] == "g", "the capture carries the group name")
+		if m[2] < 0 {
+			vassert(c["offset"] == -1 && c["length"] == 0 && c["string"] == nil, "a group that did not participate has offset -1, length 0 and a null string")
+			vreach("absent-group")
+		} else {
+			vassert(c["offset"] == refRuneCount(s[:m[2]]), "capture offset in code points")
+			vassert(c["length"] == refRuneCount(s[m[2]:m[3]]), "capture length in code points")
+			vassert(c["string"] == s[m[2]:m[3]], "capture string is the captured text")
+			vreach("group")
+		}
+	}
+	vreach("end")
 }
